@@ -105,7 +105,7 @@ def run(ctx, ck):
 
     check_nearfield_power_scaling(ctx, ck)
 
-    f = ctx.func(NF)
+    f = ctx.flat(NF)        # (private helpers inlined: the image loop may live in one)
     fl = ctx.flow(f)
     for attr in ('self.e_field', 'self.h_field'):
         n_upd, bad, n_plain = first_touch_is_plain_assign(fl, attr)
